@@ -176,3 +176,10 @@ def abandon_case(draw, tier="quick"):
     lead = [["d", 0]] * (6 + 2 * nchan)
     fates = [lead + heavy, lead + light] if side == 0 else [lead + light, lead + heavy]
     return {"client": draw(st.integers(0, 1)), "start_at": 0, "ops": ops, "fates": fates}
+
+
+def bundling(base):
+    """The same case space with a sender that bundles: the datagrams an endpoint produces in one loop turn leave as packets
+    of up to n chunks (pattern of n cycled per packet and side; INIT / INIT-ACK travel alone, packets stay below 1400 bytes)."""
+    pattern = st.one_of(st.just([8]), st.just([2]), st.lists(st.sampled_from([1, 2, 2, 3, 8]), min_size=1, max_size=8).filter(lambda p: max(p) > 1))
+    return st.builds(lambda case, p: dict(case, bundle=p), base, pattern)
